@@ -297,6 +297,13 @@ pub fn run_item(prop: &str, tier: &str, idx: usize, only: Option<&Value>) -> MRe
                     rebuild(tree)?;
                     ok_ = k.one(op.clone().keep("r"))?;
                 }
+                if !ok_.ok && ok_.msg.as_deref().map(|m| m.contains("racing filesystem changes caused openat2 to abort")).unwrap_or(false) {
+                    // still aborted after 30 attempts: the machine is being hammered with renames by something else;
+                    // this case cannot be decided now (counted, never a verdict)
+                    res.count("transient_undecided", 1);
+                    k.one(Op::new("close_handle").handle("r"))?;
+                    continue;
+                }
                 let sk = snap_all()?;
                 let kpath = id_path(&sk, &ok_.fd);
                 k.one(Op::new("close_handle").handle("r"))?;
